@@ -153,12 +153,18 @@ def hist_mps_copy(ctx, rng, nprng):
     psi = _rand_mps(rng, ops, N, mpo=rng.random() < 0.3)
     if rng.random() < 0.5:
         psi.canonize_(to="first" if rng.random() < 0.5 else "last")
+    central = rng.random() < 0.5
+    if central:    # leave a central block in place (the state between orthogonalize_site_ and absorb_central_)
+        psi.orthogonalize_site_(rng.randrange(N), to=rng.choice(("first", "last")))
+        ctx.count("mps_copy_with_central_block", int(psi.pC is not None))
     how = rng.choice(("copy", "clone", "shallow_copy"))
     phi = getattr(psi, how)()
     s_phi = IM.snapshot(phi)
     s_psi = IM.snapshot(psi)
     # documented idiom: in-place algorithms on one side leave the other unchanged (also for shallow_copy)
     edit = rng.choice(("canonize_", "truncate_", "setitem", "orth", "factor"))
+    if central and edit in ("orth", "truncate_", "canonize_"):
+        edit = rng.choice(("absorb", "setitem", "factor"))   # a second central block is rejected by documentation
     tgt, other, s_other, side = (psi, phi, s_phi, "source") if rng.random() < 0.5 else (phi, psi, s_psi, "copy")
     if edit == "canonize_":
         tgt.canonize_(to=rng.choice(("first", "last")), normalize=rng.random() < 0.5)
@@ -171,14 +177,16 @@ def hist_mps_copy(ctx, rng, nprng):
     elif edit == "orth":
         tgt.orthogonalize_site_(rng.randrange(N), to=rng.choice(("first", "last")))
         tgt.absorb_central_(to=rng.choice(("first", "last")))
+    elif edit == "absorb":
+        tgt.absorb_central_(to=rng.choice(("first", "last")))
     else:
         tgt.factor = 3.0 * tgt.factor
     _same(ctx, f"copy-not-independent:Mps.{how}:{edit}", f"in-place {edit} on the {side} changed the other side of Mps.{how}()", s_other, other)
     if how != "shallow_copy":
         # deep in-place write into a site tensor of one side
-        n = rng.randrange(N)
+        key = rng.choice(sorted(tgt.A, key=str))      # any stored tensor, the central block included
         s_other = IM.snapshot(other)
-        t = tgt[n]
+        t = tgt.A[key]
         if t.size:
             t._data[...] = 1.25
         _same(ctx, f"copy-not-independent:Mps.{how}:site-data", f"writing into a site tensor of the {side} changed the other side of Mps.{how}()", s_other, other)
